@@ -114,7 +114,7 @@ def sorted_vectors():
 
 EXACT_SYM = [1, 2, 'a', 'A', 'b*', True, None]
 LK_APPROX = [0, 1, 2, 3, 4, 5, 6, 7, 8, 'a', 'b', 'B', 'c', 'd', 'e', 'f', 'g', '3', '*', '?', False, True, None]
-LK_EXACT = [1, 2, 3, 'a', 'A', 'b*', 'b~*', 'B?', '?', '*', '~*', 'c', '1', True, False, None]
+LK_EXACT = [1, 2, 3, 'a', 'A', 'b*', 'b~*', 'B?', '?', '*', '~*', 'c', 'empty', '1', True, False, None]
 NUM6, TXT6, MIX6 = [1, 3, 5, 7, 9, 11], ['b', 'd', 'f', 'h', 'j', 'l'], [1, 3, 'b', 'd', False, True]
 MIXR = {1: ['b'], 2: [1, 'b'], 3: [1, 'b', True], 4: [1, 3, 'b', True], 5: [1, 3, 'b', 'd', True], 6: MIX6}
 EX6A, EX6B = [2, 'a', None, 'A', 1, 'b*'], [1, 'A', 1, 'a', True, 2]
@@ -261,7 +261,7 @@ def run_xlookup(case):
             if not L.accepted(got, exp):
                 m = L.match(key, keys, 1 if approx else 0)
                 fails.append(Fail('xlookup', got=got, exp=sorted(exp), fn=fn, rl=rl, spell=spell, key=show(key), keyk=key[0],
-                                  vec=showvec(keys), veck=kinds(keys), n=len(keys), other=other, idx=idx,
+                                  vec=showvec(keys), veck=kinds(keys), hasblank=BLANK in keys, n=len(keys), other=other, idx=idx,
                                   idxk='zero' if idx == 0 else 'over' if idx > other else 'in', found=m != {NA}, formula=f))
     return result(execs, ocs, fails)
 
